@@ -34,7 +34,7 @@ RandOpt(c) ==
          LET i == RandomElement(1..Len(c.kids)) IN
          IF r = 1 THEN {} ELSE RandData(CaseKids(c.kids[i]))
 RandData(sk) == IF sk = << >> THEN {} ELSE RandOpt(sk[1]) \cup RandData(Tail(sk))
-RandCase(i) == LET sch == RandSchema(RandDepth, "data") IN [id |-> 1000 + i, kids |-> sch, d |-> RandData(sch)]
+RandCase(i) == LET sch == RandSchema(RandDepth, IF i % 2 = 0 THEN "sparse" ELSE "data") IN [id |-> 1000 + i, kids |-> sch, d |-> RandData(sch)]
 
 RECURSIVE RandCases2(_)
 RandCases2(n) == IF n = 0 THEN << >> ELSE RandCases2(n - 1) \o <<RandCase(n)>>
